@@ -43,12 +43,27 @@ type findingsFile struct {
 func loadFindings(dir string) []Finding {
 	b, err := os.ReadFile(filepath.Join(dir, "known-findings.json"))
 	if err != nil {
-		return nil
+		b = []byte("{}")
 	}
 	var f findingsFile
 	if err := json.Unmarshal(b, &f); err != nil {
 		fmt.Fprintf(os.Stderr, "known-findings.json: %v\n", err)
 		os.Exit(2)
+	}
+	// per-property files (same format), so that entries can be maintained independently
+	extra, _ := filepath.Glob(filepath.Join(dir, "known-findings.d", "*.json"))
+	sort.Strings(extra)
+	for _, p := range extra {
+		eb, err := os.ReadFile(p)
+		if err != nil {
+			continue
+		}
+		var ef findingsFile
+		if err := json.Unmarshal(eb, &ef); err != nil {
+			fmt.Fprintf(os.Stderr, "%s: %v\n", p, err)
+			os.Exit(2)
+		}
+		f.Findings = append(f.Findings, ef.Findings...)
 	}
 	return f.Findings
 }
